@@ -22,6 +22,15 @@ func VerifSetDialHook(fn func(ctx context.Context, local, remote netip.Addr, por
 	verifDialHook = fn
 }
 
+// verifFSMHook, when non-nil, is called by an FSM goroutine right after the
+// peer has approved one of its transitions (a schedule point for the harness).
+var verifFSMHook func(remote netip.Addr, outbound bool)
+
+// VerifSetFSMHook installs (or with nil removes) the FSM schedule-point hook.
+func VerifSetFSMHook(fn func(remote netip.Addr, outbound bool)) {
+	verifFSMHook = fn
+}
+
 // VerifOpen is the exported view of a decoded OPEN message.
 type VerifOpen struct {
 	Version  uint8
